@@ -31,9 +31,17 @@ def alphabet(reduced=False):
     return [(i, c, ph, po, tp) for i in ids for c in cons for ph in (False, True) for po in (False, True) for tp in tps]
 
 
+def label(tp):
+    """tally-pool labels as they come out of a parser: equal values, distinct objects"""
+    if tp is None or tp == 0:
+        return tp
+    return "".join(["pool-", str(tp)])
+
+
 def build(recs):
     out = []
     for j, (i, cons, ph, po, tp) in enumerate(recs):
+        tp = label(tp)
         votes = {c: {"A": j + 1, f"x{j}": True} for c in cons}
         if cons:
             out.append(CVR(id=i, votes=votes, phantom=ph, pool=po, tally_pool=tp))
@@ -60,7 +68,7 @@ def reference(recs):
                 conflict = True
     if conflict:
         return "ValueError"
-    return [(i, acc[i]["votes"], acc[i]["phantom"], acc[i]["pool"], acc[i]["tps"][0] if acc[i]["tps"] else None) for i in order]
+    return [(i, acc[i]["votes"], acc[i]["phantom"], acc[i]["pool"], label(acc[i]["tps"][0]) if acc[i]["tps"] else None) for i in order]
 
 
 def judge(recs):
